@@ -320,13 +320,28 @@ pub mod verif_clock {
         pub fn now() -> Self {
             Instant(get())
         }
+
+        /// Same contract as `std::time::Instant::checked_add`: `None` where the standard
+        /// instant (signed 64 bit seconds) cannot represent the sum
+        pub fn checked_add(&self, rhs: Duration) -> Option<Instant> {
+            let now_secs = self.0 / 1_000_000_000;
+            if rhs.as_secs() > (i64::MAX as u64).saturating_sub(now_secs) {
+                return None;
+            }
+            Some(Instant(
+                self.0
+                    .saturating_add(rhs.as_nanos().min(u64::MAX as u128) as u64),
+            ))
+        }
     }
 
     impl std::ops::Add<Duration> for Instant {
         type Output = Instant;
 
+        /// Panics where `std::time::Instant + Duration` panics
         fn add(self, rhs: Duration) -> Instant {
-            Instant(self.0.saturating_add(rhs.as_nanos().min(u64::MAX as u128) as u64))
+            self.checked_add(rhs)
+                .expect("overflow when adding duration to instant")
         }
     }
 
